@@ -83,7 +83,7 @@ Definition skeletonb (C : cut) (aa : bool) (m : graph) : bool :=
   && forallb (fun x =>
        oeqb (node_get m (phi C x) (S "fragid")) (Some (VList [VInt (Z.of_nat (owner C x))]))
        && oeqb (node_get m (phi C x) (S "aromatic")) (aget (S "aromatic") (payload C x))
-       && oeqb (node_get m (phi C x) (S "rs_isomer")) None
+       && oeqb (node_get m (phi C x) (S "rs_isomer")) None && oeqb (node_get m (phi C x) (S "ez_isomer_atoms")) None
        && forallb (fun kv => str_in (fst kv) reserved || (aa && str_eqb (fst kv) (S "hcount"))
                              || oeqb (node_get m (phi C x) (fst kv)) (aget (fst kv) (payload C x))) (payload C x)) (flat C)
   && forallb (fun x => forallb (fun y =>
